@@ -187,6 +187,43 @@ PAIRS['SCH5'] = ("""<schema extends="b.xml" datatype="vf.dtsupport.wrap2">
     'b.xml': """<schema keytype="identifier" datatype="vf.dtsupport.wrap"><key name="Kb" default="b"/></schema>""",
 })
 
+# the extender declares a key type, the base none: the base's body is read under the base's own
+# (default) key type, so its top-level names are what basic-key makes of them
+PAIRS['SCH6'] = ("""<schema extends="b.xml" keytype="identifier">
+ <key name="Kt" default="t"/>
+</schema>""", """<schema keytype="identifier">
+ <sectiontype name="t1"><key name="kc"/></sectiontype>
+ <key name="ka" default="a"/>
+ <section type="t1" name="sb" attribute="bx"/>
+ <key name="Kt" default="t"/>
+</schema>""", {
+    'b.xml': """<schema><sectiontype name="t1"><key name="Kc"/></sectiontype><key name="Ka" default="a"/><section type="t1" name="Sb" attribute="bx"/></schema>""",
+})
+
+# composed schemas that must be REFUSED exactly like their expansion: a derived type re-using the attribute
+# name of an inherited unnamed section slot (directly, and up a chain of three)
+PAIRS['BAD1'] = ("""<schema><sectiontype name="tz"/>
+ <sectiontype name="ta"><section type="tz" name="*" attribute="sx"/><key name="ka"/></sectiontype>
+ <sectiontype name="tb" extends="ta"><key name="kx" attribute="sx"/></sectiontype>
+ <section type="tb" name="*" attribute="sb"/></schema>""", """<schema><sectiontype name="tz"/>
+ <sectiontype name="ta"><section type="tz" name="*" attribute="sx"/><key name="ka"/></sectiontype>
+ <sectiontype name="tb"><section type="tz" name="*" attribute="sx"/><key name="ka"/><key name="kx" attribute="sx"/></sectiontype>
+ <section type="tb" name="*" attribute="sb"/></schema>""", {})
+PAIRS['BAD2'] = ("""<schema><sectiontype name="tz"/>
+ <sectiontype name="ta"><multisection type="tz" name="+" attribute="ms"/></sectiontype>
+ <sectiontype name="tb" extends="ta"><key name="kb"/></sectiontype>
+ <sectiontype name="tc" extends="tb"><section type="tz" name="*" attribute="ms"/></sectiontype>
+ <section type="tc" name="*" attribute="sc"/></schema>""", """<schema><sectiontype name="tz"/>
+ <sectiontype name="ta"><multisection type="tz" name="+" attribute="ms"/></sectiontype>
+ <sectiontype name="tb"><multisection type="tz" name="+" attribute="ms"/><key name="kb"/></sectiontype>
+ <sectiontype name="tc"><multisection type="tz" name="+" attribute="ms"/><key name="kb"/><section type="tz" name="*" attribute="ms"/></sectiontype>
+ <section type="tc" name="*" attribute="sc"/></schema>""", {})
+PAIRS['BAD3'] = ("""<schema><sectiontype name="ta"><key name="k-a"/><key name="+" attribute="any"/></sectiontype>
+ <sectiontype name="tb" extends="ta"><multikey name="km" attribute="k_a"/></sectiontype>
+ <section type="tb" name="*" attribute="sb"/></schema>""", """<schema><sectiontype name="ta"><key name="k-a"/><key name="+" attribute="any"/></sectiontype>
+ <sectiontype name="tb"><key name="k-a"/><key name="+" attribute="any"/><multikey name="km" attribute="k_a"/></sectiontype>
+ <section type="tb" name="*" attribute="sb"/></schema>""", {})
+
 PAIRS['CMP'] = ("""<schema>
  <import package="vfpk_a"/>
  <import package="vfpk_b"/>
@@ -294,6 +331,9 @@ class C11(P.TextMixin, Harness):
         from .. import corpus
         us = []
         for pid in PAIRS:
+            if pid.startswith('BAD'):
+                us.append({'pair': pid, 'files': [['main.conf', [[W('k'), ' ', V('v')]]]], 'must_reach': 'schema-failed'})
+                continue
             for t in (TEXTS_Q if tier == 'quick' else TEXTS_T):
                 us.append({'pair': pid, 'files': [['main.conf', t]]})
             # the C01 corpus: every balanced shape up to 3 (thorough 4) lines, all tokens symbolic
@@ -335,6 +375,13 @@ class C11(P.TextMixin, Harness):
     def expect(self, unit, inp, real):
         composed, expanded, bases = PAIRS[unit['pair']]
         return self._load(expanded, {}, self.text_files(unit, inp), common.all_concrete(inp))
+
+    def agree(self, unit, real, exp):
+        if unit['pair'].startswith('BAD'):
+            # refused when the schema is loaded, both spellings, with a schema error
+            return z3.BoolVal(real[0] == 'schema-failed' and exp[0] == 'schema-failed'
+                              and real[1] == exp[1] == 'SchemaError')
+        return deep_eq(real, exp)
 
     def classify(self, unit, real):
         return real[0]
